@@ -1,4 +1,5 @@
 import FCA.Proofs.LatticeSpec
+import FCA.Model.Misc
 import FCA.Proofs.OrderSpec
 import FCA.Proofs.LexOrder
 /-
